@@ -3,15 +3,23 @@
 the dependency closure of any property theorem configured for that property (such a function is tied to the code
 only by the differential run).  Usage: tools/tiescope.py [Cxx …]   (needs the proof modules built)"""
 import json, re, subprocess, sys, os
-sys.path.insert(0, '/verif')
+ROOT = os.path.dirname(os.path.dirname(os.path.abspath(__file__)))
+sys.path.insert(0, ROOT)
 import check_config as cc
-props = {json.loads(l)['id']: json.loads(l) for l in open('/verif/properties.jsonl')}
-want = sys.argv[1:] or sorted(props)
+props = {json.loads(l)['id']: json.loads(l) for l in open(os.path.join(ROOT, 'properties.jsonl'))}
+argv = sys.argv[1:]
+def opt(name, default):
+    if name in argv:
+        i = argv.index(name); v = argv[i + 1]; del argv[i:i + 2]; return v
+    return default
+JOBS = int(opt('--jobs', '1'))
+KEY = opt('--key', '')
+want = argv or sorted(props)
 out = {}
-for pid in want:
+def scope(pid):
     mods = [m for m in cc.PROPS[pid]['modules'] if m.startswith('D128.Props.')] if isinstance(cc.PROPS[pid], dict) else [m for m in cc.PROPS[pid].modules if m.startswith('D128.Props.')]
-    genmods = sorted('D128.Gen.' + f[:-5] for f in os.listdir('/verif/lean/D128/Gen') if f.endswith('.lean'))
-    r = subprocess.run(['lake', 'env', 'lean', '--run', 'Audit/GenDeps.lean'] + mods + genmods, cwd='/verif/lean', capture_output=True, text=True)
+    genmods = sorted('D128.Gen.' + f[:-5] for f in os.listdir(os.path.join(ROOT, 'lean/D128/Gen')) if f.endswith('.lean'))
+    r = subprocess.run(['lake', 'env', 'lean', '--run', 'Audit/GenDeps.lean'] + mods + genmods, cwd=os.path.join(ROOT, 'lean'), capture_output=True, text=True)
     deps, calls = set(), {}
     for l in r.stdout.split('\n'):
         m = re.match(r'GENDEPS (\S+) (\S+) \[(.*)\]', l)
@@ -42,7 +50,11 @@ for pid in want:
         return not re.search(r'\.(mk|rec|casesOn|noConfusion|noConfusionType|default|decEq|sizeOf_spec|injEq|inj|ctorIdx|toCtorIdx|ofNat|recOn)$|inst[A-Z]|\.match_|\._', f)
     reach = {f for f in seen if isfn(f)}
     gap = sorted(reach - deps)
-    out[pid] = dict(entries=sorted(entries), reachable=len(reach), in_theorems=len(reach & deps), not_in_theorems=gap)
-    print(pid, 'entries', len(entries), 'reachable', len(reach), 'in theorems', len(reach & deps), 'NOT in theorems:', gap)
-os.makedirs('/verif/work', exist_ok=True)
-json.dump(out, open('/verif/work/tiescope.json', 'w'), indent=1)
+    print(pid, 'entries', len(entries), 'reachable', len(reach), 'in theorems', len(reach & deps), 'NOT in theorems:', gap, flush=True)
+    return pid, dict(entry_points=len(entries), reachable_generated_functions=len(reach), in_property_theorems=len(reach & deps), not_in_property_theorems=gap)
+from concurrent.futures import ThreadPoolExecutor
+with ThreadPoolExecutor(JOBS) as ex:
+    for pid, d in ex.map(scope, want):
+        out[pid] = d
+os.makedirs(os.path.join(os.path.dirname(os.path.dirname(os.path.abspath(__file__))), 'work'), exist_ok=True)
+json.dump(dict(key=KEY, scope=out), open(os.path.join(os.path.dirname(os.path.dirname(os.path.abspath(__file__))), 'work', 'tiescope.json'), 'w'), indent=1)
